@@ -306,6 +306,7 @@ def tGuard : Str := LT3 ++ ofString "GUARDNAME"
 def tState : Str := LT3 ++ ofString "STATENAME"
 def tActEv : Str := LT3 ++ ofString "ACTIONNAME_" ++ LT3 ++ ofString "EVENTNAME"
 def tMachine : Str := LT3 ++ ofString "STATEMACHINENAME"
+def tClass : Str := LT3 ++ ofString "CLASSNAME"
 
 /-- class of a cleaned tag name (the text after `{{{USER_` in `CleanUpLine`'s result, where
     `>` and `}` are already gone) -/
@@ -322,8 +323,8 @@ def classify (n : Str) : Option Scheme :=
       let post := n.drop (i + 1 + tState.length)
       if contains LT3 pre || contains LT3 post || isPrefixB [US] post then none else some (.stateWrap pre post)
     | _ =>
-      -- only the per-model constant <<<STATEMACHINENAME>>> : one key per file
-      if replaceAll tMachine [] n |> contains LT3 then none else some .static
+      -- only per-file constants (<<<STATEMACHINENAME>>>, the UML templates' <<<CLASSNAME>>>) : one key per file
+      if replaceAll tClass [] (replaceAll tMachine [] n) |> contains LT3 then none else some .static
 
 /-- name part of a template tag line -/
 def schemeOf (l : Str) : Str :=
@@ -342,6 +343,13 @@ def fileSchemesOK (ls : List Str) : Bool :=
 def usedSuffixes (ls : List Str) : List Str :=
   (ls.filter isUserTag).filterMap (fun l => match classify (schemeOf l) with
     | some (.stateSfx r) => some r | _ => none)
+
+/-- The protocol and class-diagram templates carry static tags only (one key per file; the
+    per-operation tags of UML classes are built in `Language*.py`, outside the templates). -/
+theorem C07_shipped_other_templates_static :
+    [Generated.protoCpp, Generated.umlCpp, Generated.umlCs].all (fun set => set.all (fun f =>
+      (f.2.filter isUserTag).all (fun l => classify (schemeOf l) == some .static))) = true := by
+  decide +kernel
 
 /-- Every USER tag of every shipped state-machine template falls in a class covered by
     `C07_file_keys_nodup`, and the state suffixes in use are exactly the hook list. -/
